@@ -45,8 +45,8 @@ theorem eng_ok {P} (hP : Wf P) : ∀ r, FetchSpec P r (eng P r).1 ∧ McaSpec P 
         simp only [Nat.lt_irrefl, if_false, if_true]
         obtain ⟨m0, hm0⟩ := hex
         simp only [mcaStep, hm0]
-        obtain ⟨b1, b2, _, m, b4, b5, _, b7, _⟩ := hstep s hI
-        exact ⟨b1, b2, m, b4, b5, by rw [b7]⟩
+        obtain ⟨b1, b2, _, m, b4, b5, b6⟩ := hstep s hI
+        exact ⟨b1, b2, m, b4, b5, by rw [← b6]; rfl, by rw [← b6]; rfl⟩
 
 theorem fetch_sound {P} (hP : Wf P) (s : State) (q : Nat) (hI : Inv P s) :
     Inv P (fetch P s q).1 ∧ (fetch P s q).2.val = sem P s.inp q ∧
@@ -133,9 +133,9 @@ theorem bump_inv {P s s' b} (hb : Bump s s' b) (hI : Inv P s) : Inv P s' := by
         rcases hb.inp j with h | h
         · left; rw [h] at hx; simp only [depInfo]; rw [hx]
         · right
-          refine ⟨by rw [← hx]; exact h.1, ⟨(s.inp j).val, (s.inp j).ca, (s.inp j).dur⟩, rfl, h.2, hI.inp_le j⟩
+          refine ⟨by rw [← hx]; exact h.1, (s.inp j).res, rfl, h.2, hI.inp_le j⟩
     refine ⟨ok.ca_va, by rw [hb.cur]; exact Nat.le_succ_of_le ok.va_cur, ok.va1, ok.deep_va, ok.dur3, ok.rep,
-      ?_, ?_, ?_, ?_, ?_, ?_, ?_⟩
+      ok.repAcc, ?_, ?_, ?_, ?_, ?_, ?_, ?_, ?_, ?_⟩
     · -- i2
       intro o ho x hx hc
       rcases hinfo_cases o ho x hx with h | ⟨h1, _⟩
@@ -157,9 +157,11 @@ theorem bump_inv {P s s' b} (hb : Bump s s' b) (hI : Inv P s) : Inv P s' := by
           rw [hd] at bb
           obtain ⟨m2, hm2, hs2⟩ := bb
           refine ⟨m2, by rw [hb.memos]; exact hm2, ?_⟩
-          have hinfo : depInfo s o.dep = some ⟨m2.value, m2.ca, m2.dur⟩ := by rw [hd]; simp [depInfo, hm2]
+          have hinfo : depInfo s o.dep = some m2.res := by rw [hd]; simp [depInfo, hm2]
           have hdur := (ok.i2 o ho _ hinfo (a _ hinfo)).2
-          have hk : ¬ m2.dur ≤ b := by simp only at hdur; omega
+          have hk : ¬ m2.dur ≤ b := by
+            have : m2.res.dur = m2.dur := rfl
+            omega
           right
           rw [hb.lc m2.dur]
           simp only [hk, if_false]
@@ -197,6 +199,17 @@ theorem bump_inv {P s s' b} (hb : Bump s s' b) (hI : Inv P s) : Inv P s' := by
         · have hdur := (ok.i2 o ho x0 h0 h2).2
           exact ⟨s.cur + 1, b, hb.wl_new, Nat.le_trans hdur hd0, hva_lt, by rw [h1]; exact Nat.le_refl _⟩
         · exact ⟨w, d, hb.wl_old _ a, bb, c, by rw [h1]; exact Nat.le_trans e (Nat.le_succ_of_le hc0)⟩
+    · -- a2
+      intro hs ha o ho x hx
+      obtain ⟨_, hs0⟩ := hsok hs
+      cases hd : o.dep with
+      | qry q' => rw [hd] at hx; rw [depInfo_bump_qry hb q'] at hx; exact ok.a2 hs0 ha o ho x (by rw [hd]; exact hx)
+      | inp j => rw [hd] at hx; exact depInfo_inp_noacc hx
+    · -- a3
+      intro o ho hr x hx
+      cases hd : o.dep with
+      | qry q' => rw [hd] at hx; rw [depInfo_bump_qry hb q'] at hx; exact ok.a3 o ho hr x (by rw [hd]; exact hx)
+      | inp j => rw [hd] at hx; exact depInfo_inp_noacc hx
 
 theorem write_bump (s : State) (i v : Nat) (nd : Option Nat) :
     ∃ b, Bump s (write s i v nd) b := by
@@ -288,30 +301,6 @@ theorem init_inv (P inp) : Inv P (init inp) := by
   · intro w d h; simp [init] at h
   · intro q m h; simp [init] at h
 
-theorem step_inv {P} (hP : Wf P) (s : State) (op : Op) (hI : Inv P s) : Inv P (step P s op) := by
-  cases op with
-  | get q => exact (fetch_sound hP s q hI).1
-  | set i v nd => obtain ⟨b, hb⟩ := write_bump s i v nd; exact bump_inv hb hI
-  | synth d => obtain ⟨b, hb⟩ := synth_bump s d; exact bump_inv hb hI
-
-theorem foldl_inv {P} (hP : Wf P) : ∀ (ops : List Op) (s : State), Inv P s → Inv P (ops.foldl (step P) s) := by
-  intro ops
-  induction ops with
-  | nil => intro s h; exact h
-  | cons op rest ih => intro s h; exact ih _ (step_inv hP s op h)
-
-/-- every reachable state satisfies the invariant -/
-theorem run_inv {P} (hP : Wf P) (inp : Nat → Inp) (ops : List Op) : Inv P (run P inp ops) :=
-  foldl_inv hP ops _ (init_inv P inp)
-
-/-- C01/C02 (stage S2): for every well-formed program and EVERY history of requests, input writes
-    that keep, raise or lower the field's durability (including to and from NEVER_CHANGE, whose
-    later writes are rejected) and synthetic writes of any durability, every request returns the
-    from-scratch value over the current inputs. -/
-theorem c02_s2 {P} (hP : Wf P) (inp : Nat → Inp) (ops : List Op) (q : Nat) :
-    (fetch P (run P inp ops) q).2.val = sem P (run P inp ops).inp q :=
-  (fetch_sound hP _ q (run_inv hP inp ops)).2.1
-
 /-- a rejected write to a NEVER_CHANGE field changes no input and no memo -/
 theorem never_write_frozen (s : State) (i v : Nat) (nd : Option Nat) (h : (s.inp i).dur ≥ 3) :
     (write s i v nd).inp = s.inp ∧ (write s i v nd).memos = s.memos := by
@@ -349,6 +338,10 @@ theorem wfB_compile (r : Nat) : ∀ (e : Expr) (k : Nat → Body), e.callsBelow 
     split
     · exact iha _ h.1.2 hk
     · exact ihb _ h.2 hk
+  | pu a iha =>
+    intro k h hk
+    simp only [Expr.callsBelow] at h
+    exact iha _ h (fun x => WfB.push _ _ (hk x))
 
 theorem wfList_get : ∀ (es : List Expr) (r q : Nat) (e : Expr), wfList r es = true → es[q]? = some e →
     e.callsBelow (r + q) = true := by
